@@ -16,6 +16,7 @@
 package sqlx
 
 import (
+	"context"
 	"database/sql"
 
 	"shanhu.io/g/strutil"
@@ -81,13 +82,20 @@ func (db *DB) Driver() string {
 
 // Begin begins a transaction.
 func (db *DB) Begin() (*Tx, error) {
-	tx, err := db.DB.Begin()
+	ctx := context.Background()
+	conn, err := db.DB.Conn(ctx)
 	if err != nil {
+		return nil, err
+	}
+	tx, err := conn.BeginTx(ctx, nil)
+	if err != nil {
+		conn.Close()
 		return nil, err
 	}
 
 	return &Tx{
 		Tx:   tx,
 		wrap: &wrap{conn: tx},
+		conn: conn,
 	}, nil
 }
